@@ -173,13 +173,14 @@ class DensityMatrix(StateRepresentationBase):
             if measurement_determinism == "probabilistic":
                 outcome = numpy.random.choice([0, 1], p=probs / np.sum(probs))
             elif measurement_determinism == 1:
-                if probs[1] > 0:
+                # an outcome is possible only if its probability is non-zero beyond rounding error
+                if probs[1] > 1e-12 * np.sum(probs):
                     outcome = 1
                 else:
                     outcome = 0
 
             elif measurement_determinism == 0:
-                if probs[1] < 1:
+                if probs[0] > 1e-12 * np.sum(probs):
                     outcome = 0
                 else:
                     outcome = 1
